@@ -9,8 +9,11 @@
    What is NOT a theorem here: the behaviour of the mi_ targets themselves (that mi_posix_memalign
    returns EINVAL/ENOMEM without touching the result slot, that mi_reallocarray sets errno, that a
    block of one mi_ function can be released by another).  The last is hypothesis H of
-   C19_cross_entry_point_ok -- the subject of C01/C03/C05; the return values are checked on the
-   implementation by harness/t_override.c / t_override.cpp (every entry point, preloaded and static). *)
+   C19_cross_entry_point_ok -- the subject of C01/C03/C05; the codes of mi_posix_memalign and
+   mi_reallocarray are modelled in Model/Api.v (C03/C06).  Here the table shows that each entry point
+   reaches the target with the documented convention (C19_failure_convention), and the return values
+   are checked on the implementation through the libc / C++ names by harness/t_override.c and
+   t_override.cpp (every entry point, preloaded and statically overridden). *)
 From Coq Require Import List String Bool.
 From MiV Require Import Gen.Override Model.Override Proofs.OverrideProofs.
 Import ListNotations.
@@ -60,6 +63,14 @@ Theorem C19_entry_points_served : forall r, In r required -> r_presence r <> Opt
     (class_of_target f = Some (r_cls r) \/ (r_presence r = ViaMalloc /\ class_of_target f = Some Alloc)).
 Proof. exact entry_points_served. Qed.
 Print Assumptions C19_entry_points_served.
+
+(* the documented failure convention (error code with untouched slot, NULL + errno, NULL, throw, nullptr)
+   of every exported entry point is the convention of the mi_ function it resolves to *)
+Theorem C19_failure_convention : forall r e, In r required ->
+  find_entry Gen.Override.table (r_sym r) = Some e ->
+  exists g, find_target (e_target e) = Some g /\ t_cls g = r_cls r /\ t_fail g = r_fail r.
+Proof. exact failure_convention. Qed.
+Print Assumptions C19_failure_convention.
 
 (* crossing entry points.  The first premise is hypothesis H (Section hypothesis H_one_allocator of
    Proofs/OverrideProofs.v): the mi_ functions belong to ONE allocator instance whose releasing /
